@@ -40,6 +40,7 @@ type Cfg struct {
 	SysRmOnly bool     `json:"sys_rm_only"`        // Rm only where the system itself would delete (target and its parent not user-retained)
 	AllReads  bool     `json:"all_reads"`          // final oracle reads every (offset,len) pair
 	InitOps   []string `json:"init_ops"`           // executed before the path (not part of it)
+	ViaRPC    bool     `json:"via_rpc,omitempty"`  // reads and writes go through the real rpc.Client -> TCP loopback -> rpc.Server -> the same server
 	ViaREST   bool     `json:"via_rest,omitempty"` // management events go through the real clients and the replica/rest router (restapi.go)
 }
 
@@ -143,6 +144,7 @@ type inst struct {
 	hazard     string // set when the path ran into a history class that is a recorded known finding
 	rest       *restAPI
 	restRouter http.Handler
+	rpc        *rpcPath
 }
 
 func (x *inst) violate(oracle, sig, detail string) {
@@ -210,6 +212,10 @@ func Exec(req *kernel.Request) (resp *kernel.Response) {
 	h := sha1.Sum([]byte(strings.Join(x.obs, "\n")))
 	resp.Obs = fmt.Sprintf("%x", h[:8])
 	resp.Violations = x.viol
+	if rpcCalls > 0 {
+		x.cnt["rpc_calls"] += rpcCalls
+		rpcCalls = 0
+	}
 	if restReqs > 0 {
 		x.cnt["rest_requests"] += restReqs
 		restReqs = 0
@@ -300,6 +306,7 @@ func (x *inst) bootFromTemplate(cfg *Cfg) error {
 
 func (x *inst) shutdown() {
 	defer func() { recover() }()
+	x.closeRPC()
 	if x.srv != nil && x.srv.Replica() != nil {
 		x.guard("shutdown", func() error { return x.srv.Close() })
 	}
@@ -396,7 +403,7 @@ func (x *inst) apply(ev string) {
 		tag := m.NW + 1
 		Fill(buf, tag, int64(off)*Sector)
 		var c int
-		err := x.guard(ev, func() error { var e error; c, e = x.srv.WriteAt(buf, int64(off)*Sector); return e })
+		err := x.guard(ev, func() error { var e error; c, e = x.dio().WriteAt(buf, int64(off)*Sector); return e })
 		should := m.Open && (m.Mode == "RW" || m.Mode == "WO")
 		ack := err == nil // a single-block unaligned write reports the 4096 bytes of its read-modify-write; the RPC server ignores the count
 		x.observe("%s -> %d %v", ev, c, err != nil)
@@ -519,6 +526,33 @@ func (x *inst) apply(ev string) {
 		}
 		m.Revert(i)
 		m.Dirty = true
+	case "RevertO":
+		// revert to a snapshot that an earlier revert left outside the chain (its files and parent links are still there)
+		_, o := m.orphan(f[1])
+		err := x.guard(ev, func() error { return x.api().Revert(disk(o.Name), created) })
+		x.observe("%s -> %v", ev, err != nil)
+		if err != nil {
+			x.violate("revert-failed", "revert-to-orphan-failed", fmt.Sprintf("%s (%s): %v", ev, o.Name, err))
+			return
+		}
+		m.RevertOrphan(o.Name)
+		m.Dirty = true
+	case "RmO":
+		// unlink a snapshot outside the chain that nothing depends on: the chain and every other snapshot stay as they are
+		_, o := m.orphan(f[1])
+		err := x.guard(ev, func() error { return x.api().RemoveDiffDisk(disk(o.Name)) })
+		x.observe("%s -> %v", ev, err != nil)
+		if err == nil {
+			m.RemoveOrphan(o.Name)
+		}
+	case "MarkO":
+		_, o := m.orphan(f[1])
+		var ops []replica.PrepareRemoveAction
+		err := x.guard(ev, func() error { var e error; ops, e = x.api().PrepareRemoveDisk(disk(o.Name)); return e })
+		x.observe("%s -> %v ops=%d", ev, err != nil, len(ops))
+		if err == nil && len(ops) > 0 {
+			o.Removed = true
+		}
 	case "ReopenP", "ReopenN":
 		x.reopen(f[0] == "ReopenP", ev)
 	case "Reload":
@@ -580,7 +614,7 @@ func (x *inst) apply(ev string) {
 		fired := false
 		inject.UpdateLUNMapHook = func() {
 			fired = true
-			_, werr = x.srv.WriteAt(buf, int64(off)*Sector)
+			_, werr = x.dio().WriteAt(buf, int64(off)*Sector)
 		}
 		err := x.guard(ev, func() error {
 			x.srv.SetPreload(false)
@@ -674,7 +708,7 @@ func shapeClass(off, n int) string {
 func (x *inst) readCheck(off, n int, why string) bool {
 	buf := make([]byte, n*Sector)
 	var c int
-	err := x.guard("read", func() error { var e error; c, e = x.srv.ReadAt(buf, int64(off)*Sector); return e })
+	err := x.guard("read", func() error { var e error; c, e = x.dio().ReadAt(buf, int64(off)*Sector); return e })
 	x.cnt["reads"]++
 	if !x.m.Open {
 		if err == nil {
